@@ -16,9 +16,31 @@ CLAIMS = {
        "result, error kind and all four getters compared after every call). A theorem is the right level because the property is a pure state-machine invariant over all call sequences.",
   note="Trusted: Lean kernel; axioms propext/Classical.choice/Quot.sound only; gen_constants.py; the harness+driver correspondence (differential testing, so the tie is as strong as its generator: distribution in evidence); u64 modelled as Nat (C06.no_overflow covers devices <= MAX_DEVICE_SIZE); BTreeMap assumed to be an ordered map.",
   design="6/C06"),
+ "C10": dict(
+  engine="fmt",
+  technique="Lean 4 proofs of codec round trips and layout facts on an independent Lean reader/writer of the documented layout + byte-level differential check of the real store's files and codec functions against it (incl. golden files of the pinned release)",
+  text="Machine-checked for all inputs: record encode/parse round trip in v1/v2 (record_roundtrip_unstamped) and v3 (record_roundtrip_stamped) incl. value placement and the read-side identity check, "
+       "token never zero / ignores the seq field / stamping idempotent / covers continuation blocks, marker round trip and head/marker/zero-block mutual exclusion, journal checksum independent of its own fields, "
+       "slot and metadata-copy alternation, newest-valid metadata selection, and the layout/offset facts re-proved from the regenerated Rust constants (layout_disjoint, meta_offsets). "
+       "The Lean model Feox.Fmt is an independent implementation of the documented layout: on every run it reads the files the real store wrote in v1/v2/v3 mode (and the committed golden files) "
+       "and must find exactly the store's own live keys, timestamps, expiries, value digests, sectors, free runs and counters, and reproduce recovery's writes byte for byte; the crate's CRC/token/stamp/parse/marker/journal/metadata functions are compared with the model on random and directed inputs. A symmetric encoder+decoder change therefore disagrees with Lean although the crate's own round trip still passes.",
+  note="Trusted: Lean kernel; axioms propext/Classical.choice/Quot.sound; gen_constants.py; harness+driver correspondence (differential). Not proved: full journal/metadata decode(encode) round trips (checksum-stamp lemma only) and the write path producing the image (tied by the correspondence runs). O_DIRECT and non-selected CRC hardware paths are never executed here.",
+  design="6/C10"),
+ "C17": dict(
+  engine="fmt",
+  technique="Lean 4 proofs about a total model of open/recovery over all byte images (termination, no out-of-range index in the decoders, error kinds, rejected-before-any-write) + differential check of the real open on structure-aware damaged images",
+  text="Feox.Fmt.recoverImage models the whole of opening a file (size checks, metadata selection, journal decode and replay, the scan loop branch for branch, expired-winner removal, post-scan retirement) as a total Lean function over arbitrary bytes; "
+       "every unchecked slice of the Rust decoders is a checked slice with an explicit panic outcome in the model. Proved for all images: the scan terminates (termination checker), the slot/journal decoders never index out of range (decodeSlot_no_panic, decodeJournal_no_panic, from bounds re-proved against the regenerated constants), "
+       "the scan ends only with CorruptedRecord/AmbiguousLegacyTombstone/InvalidArgument/DuplicateKey and never panics on whole-block images (scan_error_kinds, scan_no_panic), and an open rejected for size or metadata reasons has issued no write (invalid_size_rejected, bad_metadata_rejected, fail_kinds_before_io). "
+       "Tie: thousands of damaged/forged/random images per run are opened by the real store under catch_unwind and by the model; outcome class, contents, counters, free runs, number of device writes and the bytes of the file afterwards must agree.",
+  note="Trusted: as C10. A hang is caught by the harness timeout, not modelled beyond the termination proof of the model; 'a store that opens answers every call' is exercised by get() of every recovered key only. The 16-bit token cannot reject all foreign bytes (the model accepts what the bytes say, like the code).",
+  design="6/C17"),
 }
 
 NOT_YET = "not claimed yet in this revision: model/proof/correspondence for it is still being built (see DESIGN.md section 9 build order)"
+
+import subprocess
+HOOK_COMMITS = subprocess.run(['git','-C','/repo','log','--format=%h %s','8b3c2af..HEAD'],capture_output=True,text=True).stdout.strip().split('\n')
 
 def main():
     checks = []
@@ -44,12 +66,14 @@ def main():
             "guard": "--cfg feoxdb_verif (RUSTFLAGS)",
             "enable": "RUSTFLAGS=\"--cfg feoxdb_verif\" cargo build --release --offline (harness crate /verif/harness, path dependency on /repo)",
             "baseline_off_cmd": "cd /repo && cargo test --workspace --no-fail-fast --offline",
-            "source_commits": [],
+            "source_commits": HOOK_COMMITS,
             "add_only": True,
         },
         "engines": [
             {"name": "fsm", "path": "harness/src/bin/fsm.rs + lean/Feox/Fsm", "serves_properties": ["C06"],
              "kind_free_text": "differential correspondence: real FreeSpaceManager vs Lean model through a line protocol"},
+            {"name": "fmt", "path": "harness/src/bin/fmt.rs + lean/Feox/Fmt", "serves_properties": ["C10", "C17"],
+             "kind_free_text": "differential correspondence: codec functions and whole-file open/recovery vs the Lean layout model"},
         ],
         "checks": checks,
         "notes": "Every check: regenerate constants from /repo -> lake build the property module (proof obligations) + driver -> #print axioms audit -> cargo build harness against /repo working tree with --cfg feoxdb_verif -> correspondence run -> evidence. See DESIGN.md.",
